@@ -1,1 +1,249 @@
-fn main() { println!("hi"); }
+//! gramfacts - grammar fact extractor on top of the vendored lalrpop 0.19.8 front-end.
+//! See SPEC.md / README.md next to Cargo.toml.
+
+mod automata;
+mod dfa;
+mod facts;
+mod frontend;
+mod langdiff;
+mod sets;
+mod sha256;
+
+use serde_json::{json, Value};
+use std::collections::BTreeSet;
+use std::io::{Read, Write};
+
+const USAGE: &str = "\
+usage:
+  gramfacts facts <grammar.lalrpop> [--lock <Cargo.lock>] [--automata all|none|A,B,..]
+                  [--features a,b] [--pretty]
+  gramfacts regex2dfa [--pretty]        (stdin: JSON list of {kind: regex|literal, pattern})
+  gramfacts langdiff <ref.lalrpop> <cur.lalrpop> --start NT --bound N [--drop-error-alts]
+                  [--max-pairs M] [--pretty]
+exit codes: 0 ok / no difference, 1 language difference found (langdiff), 2 usage or input
+error, 3 langdiff stopped by --max-pairs before the bound";
+
+fn fail(msg: &str) -> ! {
+    eprintln!("gramfacts: {}", msg);
+    std::process::exit(2);
+}
+
+fn emit(v: &Value, pretty: bool) {
+    let s = if pretty {
+        serde_json::to_string_pretty(v).unwrap()
+    } else {
+        serde_json::to_string(v).unwrap()
+    };
+    let out = std::io::stdout();
+    let mut out = out.lock();
+    out.write_all(s.as_bytes()).unwrap();
+    out.write_all(b"\n").unwrap();
+}
+
+/// Versions of every `lalrpop` package entry of a Cargo.lock.
+fn lalrpop_versions_in_lock(text: &str) -> Vec<String> {
+    let mut out = Vec::new();
+    let mut name: Option<String> = None;
+    let mut version: Option<String> = None;
+    let mut flush = |name: &mut Option<String>, version: &mut Option<String>| {
+        if name.as_deref() == Some("lalrpop") {
+            out.push(version.clone().unwrap_or_default());
+        }
+        *name = None;
+        *version = None;
+    };
+    for line in text.lines() {
+        let line = line.trim();
+        if line == "[[package]]" {
+            flush(&mut name, &mut version);
+        } else if let Some(rest) = line.strip_prefix("name = ") {
+            name = Some(rest.trim_matches('"').to_string());
+        } else if let Some(rest) = line.strip_prefix("version = ") {
+            if name.is_some() && version.is_none() {
+                version = Some(rest.trim_matches('"').to_string());
+            }
+        }
+    }
+    flush(&mut name, &mut version);
+    out
+}
+
+struct Args {
+    positional: Vec<String>,
+    options: Vec<(String, Option<String>)>,
+}
+
+fn parse_args(args: &[String], with_value: &[&str], flags: &[&str]) -> Args {
+    let mut positional = Vec::new();
+    let mut options = Vec::new();
+    let mut i = 0;
+    while i < args.len() {
+        let a = &args[i];
+        if with_value.contains(&a.as_str()) {
+            if i + 1 >= args.len() {
+                fail(&format!("option {} needs a value\n{}", a, USAGE));
+            }
+            options.push((a.clone(), Some(args[i + 1].clone())));
+            i += 2;
+        } else if flags.contains(&a.as_str()) {
+            options.push((a.clone(), None));
+            i += 1;
+        } else if a.starts_with("--") {
+            fail(&format!("unknown option {}\n{}", a, USAGE));
+        } else {
+            positional.push(a.clone());
+            i += 1;
+        }
+    }
+    Args { positional, options }
+}
+
+impl Args {
+    fn value(&self, name: &str) -> Option<&str> {
+        self.options
+            .iter()
+            .rev()
+            .find(|(n, _)| n == name)
+            .and_then(|(_, v)| v.as_deref())
+    }
+    fn flag(&self, name: &str) -> bool {
+        self.options.iter().any(|(n, _)| n == name)
+    }
+}
+
+fn cmd_facts(args: &[String]) {
+    let a = parse_args(args, &["--lock", "--automata", "--features"], &["--pretty"]);
+    if a.positional.len() != 1 {
+        fail(&format!("facts needs exactly one grammar file\n{}", USAGE));
+    }
+    if let Some(lock) = a.value("--lock") {
+        let text = std::fs::read_to_string(lock)
+            .unwrap_or_else(|e| fail(&format!("cannot read {}: {}", lock, e)));
+        let versions = lalrpop_versions_in_lock(&text);
+        if versions.is_empty() {
+            fail(&format!("{}: no `lalrpop` package entry found", lock));
+        }
+        for v in &versions {
+            if v != facts::VENDORED_LALRPOP_VERSION {
+                fail(&format!(
+                    "{}: lalrpop version {} is locked but the vendored front-end is {}",
+                    lock,
+                    v,
+                    facts::VENDORED_LALRPOP_VERSION
+                ));
+            }
+        }
+    }
+    let features: Option<BTreeSet<String>> = a.value("--features").map(|s| {
+        s.split(',')
+            .filter(|x| !x.is_empty())
+            .map(|x| x.to_string())
+            .collect()
+    });
+    let automata = match a.value("--automata") {
+        None | Some("all") => None,
+        Some("none") => Some(Vec::new()),
+        Some(list) => Some(list.split(',').map(|s| s.to_string()).collect()),
+    };
+    let loaded = frontend::load(
+        &a.positional[0],
+        &frontend::LoadOptions {
+            drop_error_alts: false,
+            features,
+        },
+    )
+    .unwrap_or_else(|e| fail(&e));
+    let v = facts::facts(&loaded, &facts::FactsOptions { automata }).unwrap_or_else(|e| fail(&e));
+    emit(&v, a.flag("--pretty"));
+}
+
+fn cmd_regex2dfa(args: &[String]) {
+    let a = parse_args(args, &[], &["--pretty"]);
+    if !a.positional.is_empty() {
+        fail(&format!("regex2dfa reads its input from stdin\n{}", USAGE));
+    }
+    let mut input = String::new();
+    std::io::stdin()
+        .read_to_string(&mut input)
+        .unwrap_or_else(|e| fail(&format!("stdin: {}", e)));
+    let v: Value =
+        serde_json::from_str(&input).unwrap_or_else(|e| fail(&format!("stdin is not JSON: {}", e)));
+    let list = v
+        .as_array()
+        .unwrap_or_else(|| fail("stdin must be a JSON list"));
+    let mut out = Vec::new();
+    let mut errors = 0;
+    for (i, item) in list.iter().enumerate() {
+        let kind = item.get("kind").and_then(|k| k.as_str());
+        let pattern = item.get("pattern").and_then(|k| k.as_str());
+        let res = match (kind, pattern) {
+            (Some("regex"), Some(p)) => dfa::build(dfa::PatternKind::Regex, p),
+            (Some("literal"), Some(p)) => dfa::build(dfa::PatternKind::Literal, p),
+            _ => Err("entry must be {kind: \"regex\"|\"literal\", pattern: <string>}".to_string()),
+        };
+        match res {
+            Ok(d) => out.push(d.to_json()),
+            Err(e) => {
+                eprintln!("gramfacts: regex2dfa entry {}: {}", i, e);
+                errors += 1;
+                out.push(json!({ "error": e }));
+            }
+        }
+    }
+    emit(&Value::Array(out), a.flag("--pretty"));
+    if errors > 0 {
+        std::process::exit(2);
+    }
+}
+
+fn cmd_langdiff(args: &[String]) {
+    let a = parse_args(
+        args,
+        &["--start", "--bound", "--max-pairs", "--threads"],
+        &["--drop-error-alts", "--pretty"],
+    );
+    if a.positional.len() != 2 {
+        fail(&format!("langdiff needs <ref.lalrpop> <cur.lalrpop>\n{}", USAGE));
+    }
+    let start = a
+        .value("--start")
+        .unwrap_or_else(|| fail("langdiff needs --start <nonterminal>"));
+    let bound: usize = a
+        .value("--bound")
+        .unwrap_or_else(|| fail("langdiff needs --bound <N>"))
+        .parse()
+        .unwrap_or_else(|_| fail("--bound must be a non-negative integer"));
+    let max_pairs: usize = match a.value("--max-pairs") {
+        Some(v) => v
+            .parse()
+            .unwrap_or_else(|_| fail("--max-pairs must be an integer")),
+        None => 400_000_000,
+    };
+    let opts = langdiff::Options {
+        ref_path: a.positional[0].clone(),
+        cur_path: a.positional[1].clone(),
+        start: start.to_string(),
+        bound,
+        drop_error_alts: a.flag("--drop-error-alts"),
+        max_pairs,
+    };
+    let (v, code) = langdiff::run(&opts).unwrap_or_else(|e| fail(&e));
+    emit(&v, a.flag("--pretty"));
+    std::process::exit(code);
+}
+
+fn main() {
+    let args: Vec<String> = std::env::args().skip(1).collect();
+    if args.is_empty() {
+        fail(USAGE);
+    }
+    match args[0].as_str() {
+        "facts" => cmd_facts(&args[1..]),
+        "regex2dfa" => cmd_regex2dfa(&args[1..]),
+        "langdiff" => cmd_langdiff(&args[1..]),
+        "-h" | "--help" | "help" => {
+            println!("{}", USAGE);
+        }
+        other => fail(&format!("unknown sub-command `{}`\n{}", other, USAGE)),
+    }
+}
